@@ -1211,6 +1211,12 @@ def _syntactic_break_free(e, declared=(), depth=0):
         return all(_syntactic_break_free(c, declared, depth + 1) for c in e.children())
     if k in (z3.Z3_OP_SEQ_EXTRACT, z3.Z3_OP_SEQ_AT):
         return _syntactic_break_free(e.arg(0), declared, depth + 1)
+    if k == z3.Z3_OP_SEQ_NTH:
+        # an element of a list of strings stored in a model object (NamespaceIds.items ...)
+        base = e.arg(0)
+        while z3.is_app(base) and base.decl().kind() == z3.Z3_OP_SEQ_EXTRACT:
+            base = base.arg(0)
+        return z3.is_app(base) and base.decl().kind() == z3.Z3_OP_DT_ACCESSOR
     if k == z3.Z3_OP_UNINTERPRETED:
         name = e.decl().name()
         if name in ('py.upper', 'py.lower', 'py.strip', 'py.lstrip', 'py.rstrip', 'os.path.basename',
